@@ -215,6 +215,34 @@ def derived(ctx):
             ctx.count(1, distinct_key=("reaction", str(et)))
 
 
+def repeated_requests(ctx, seed):
+    """a result request is a read: asking every name three times in a row, in element and nodal form, interleaved with all the
+    other names, returns the same arrays (nothing a request computes may leak into a later one)"""
+    rng = np.random.default_rng(seed + 9)
+    n = 0
+    for kind, dim, dofn, sim in build_sims():
+        if kind == "ERR":
+            continue
+        set_random_state(kind, sim, rng)
+        first = {}
+        for pass_ in range(3):
+            for name in sim.Results_Available():
+                for nodal in (False, True):
+                    try:
+                        with quiet():
+                            r = np.asarray(sim.Result(name, nodeValues=nodal), dtype=float)
+                    except Exception:
+                        continue
+                    k = (name, nodal)
+                    n += 1
+                    if k not in first:
+                        first[k] = r.copy()
+                    elif r.shape != first[k].shape or not np.allclose(r, first[k], rtol=1e-12, atol=1e-14, equal_nan=True):
+                        ctx.violation(f"repeat/{kind}{dim}D/{name}", f"{kind} ({dim}D): Result('{name}', nodeValues={nodal}) changes when it is requested again after the other results (pass {pass_ + 1}; max difference {np.abs(r - first[k]).max() if r.shape == first[k].shape else 'shape'})", {"sim": kind, "dim": dim, "name": name})
+    ctx.count(n, distinct_key=("repeated-requests",))
+    ctx.section("repeated_requests", requests=n, passes=3)
+
+
 def run(ctx):
     rows, notes = record(ctx, ctx.seed)
     path = os.path.join(ctx.scratch, "results.json")
@@ -239,6 +267,7 @@ def run(ctx):
                 what = "returns " + " = ".join(f"{t[0]}[{t[1]}]" for t in v["tokens"])
             ctx.violation(f"name/{v['sim']}{v['dim']}D/{v['name']}", f"{v['sim']} ({v['dim']}D, {v['dofn']} dofs/node): Result('{v['name']}') {what}, it must be {v['expected'][0]}[{v['expected'][1]}]", v)
     derived(ctx)
+    repeated_requests(ctx, ctx.seed)
     ctx.section("names", rows=len(rows), unmodelled=sorted(unmod), unavailable=notes)
     ctx.sample(rows[0])
     ctx.cov["rule"] = "every name of Results_Available() of every simulation kind, abstracted to a token on a random non-equilibrium state and judged by TLC against Results.tla; distinct = (simulation kind, dimension, name)"
